@@ -49,6 +49,12 @@ pub struct Profile {
     pub lease_rounds: usize,
     /// payload lengths vary between 1 and `payload_len + 4` bytes
     pub payload_var: bool,
+    /// runtime setters include group commit, priority, apply-before-persist limit
+    pub group_commit: bool,
+    /// every node gets a random election priority in 0..=2
+    pub prio_knobs: bool,
+    /// batch_append on every node
+    pub batch_append: bool,
     /// ReadOnlyOption::LeaseBased on every node
     pub lease_read: bool,
     /// fixed values for (max_size_per_msg, max_uncommitted_size) of every node; None = defaults / random
@@ -93,6 +99,9 @@ impl Profile {
             v1: false,
             lease_rounds: 0,
             payload_var: false,
+            group_commit: false,
+            prio_knobs: false,
+            batch_append: false,
             lease_read: false,
             size_knobs: None,
             script: String::new(),
@@ -439,6 +448,76 @@ impl Profile {
                 p.proposals = 30;
                 p.max_log = 80;
             }
+            "group" => {
+                p.ids = vec![1, 2, 3, 4, 5];
+                p.voters = vec![1, 2, 3, 4, 5];
+                p.group_commit = true;
+                p.w_knob = 4;
+                p.proposals = 20;
+                p.w_partition = 2;
+                p.w_crash = 1;
+                p.w_drop = 3;
+            }
+            "s_transfer_cq" => {
+                p.ids = vec![1, 2, 3];
+                p.voters = vec![1, 2, 3];
+                p.script = "transfer_race".into();
+                p.check_quorum = true;
+                p.w_crash = 0;
+                p.w_partition = 0;
+                p.w_drop = 4;
+            }
+            "s_reelect_prio" => {
+                p.ids = vec![1, 2, 3, 4, 5];
+                p.voters = vec![1, 2, 3, 4, 5];
+                p.script = "reelect".into();
+                p.prio_knobs = true;
+                p.w_crash = 0;
+                p.w_partition = 0;
+                p.proposals = 20;
+            }
+            "s_prio3" => {
+                p.ids = vec![1, 2, 3];
+                p.voters = vec![1, 2, 3];
+                p.script = "stale_candidate".into();
+                p.prio_knobs = true;
+                p.w_crash = 0;
+                p.w_partition = 0;
+                p.proposals = 30;
+                p.max_log = 40;
+            }
+            "s_batch" => {
+                p.ids = vec![1, 2, 3];
+                p.voters = vec![1, 2, 3];
+                p.script = "batch_retx".into();
+                p.batch_append = true;
+                p.w_crash = 0;
+                p.w_partition = 0;
+                p.w_drop = 1;
+                p.proposals = 30;
+                p.max_log = 60;
+            }
+            "s_stalecand" => {
+                p.ids = vec![1, 2, 3];
+                p.voters = vec![1, 2, 3];
+                p.script = "stale_candidate".into();
+                p.w_crash = 0;
+                p.w_partition = 0;
+                p.proposals = 30;
+                p.max_log = 50;
+            }
+            "s_asyncself" => {
+                p.ids = vec![1, 2];
+                p.voters = vec![1];
+                p.learners = vec![2];
+                p.script = "async_self_elect".into();
+                p.w_crash = 0;
+                p.w_partition = 0;
+                p.w_drop = 1;
+                p.async_pct = 50;
+                p.proposals = 20;
+                p.max_log = 40;
+            }
             "leaseread" => {
                 p.check_quorum = true;
                 p.lease_read = true;
@@ -589,6 +668,12 @@ pub fn cluster_cfg(prof: &Profile, rng: &mut StdRng) -> ClusterCfg {
             if rng.gen_bool(0.2) {
                 k.max_apply_unpersisted_log_limit = 2;
             }
+        }
+        if prof.prio_knobs {
+            k.priority = rng.gen_range(0..3);
+        }
+        if prof.batch_append {
+            k.batch_append = true;
         }
         if let Some((ms, mu)) = prof.size_knobs {
             k.max_size_per_msg = ms;
@@ -871,8 +956,28 @@ impl Sched {
                 ));
             }
             if p.w_knob > 0 {
-                let which = self.rng.gen_range(0..5);
+                let which = self.rng.gen_range(0..(if p.group_commit { 10 } else { 5 }));
                 let c = match which {
+                    5 | 6 => Choice::SetKnob {
+                        n,
+                        name: format!("group:{}", *p.ids.choose(&mut self.rng).unwrap()),
+                        val: self.rng.gen_range(1..3),
+                    },
+                    7 => Choice::SetKnob {
+                        n,
+                        name: "group_commit".into(),
+                        val: if self.rng.gen_range(0..4) == 0 { 0 } else { 1 },
+                    },
+                    8 => Choice::SetKnob {
+                        n,
+                        name: if self.rng.gen_range(0..6) == 0 { "clear_groups".into() } else { "priority".into() },
+                        val: self.rng.gen_range(0..3),
+                    },
+                    9 => Choice::SetKnob {
+                        n,
+                        name: "max_apply_unpersisted_log_limit".into(),
+                        val: self.rng.gen_range(0..3),
+                    },
                     0 => Choice::SetKnob {
                         n,
                         name: "batch_append".into(),
@@ -1997,6 +2102,36 @@ impl Sched {
                         self.run_steps(cl, out, 120);
                         continue;
                     }
+                    if self.rng.gen_bool(0.5) {
+                        // the leader demotes (or removes) itself, keeps leading until it is cut off, is deposed,
+                        // and later hears election timeouts and transfer requests as a non-voter
+                        let kind = if self.rng.gen_bool(0.6) { "L" } else { "R" };
+                        self.idle_then(cl, out, l, Choice::ProposeConf { n: l, v1: false, tr: "A".into(), ch: vec![ChV { t: kind.into(), id: l }] });
+                        self.run_until(cl, out, 200, |cl| {
+                            cl.nodes[cl.slot(l)].raw.as_ref().map_or(false, |r| !r.raft.prs().conf().voters().contains(l))
+                        });
+                        self.run_steps(cl, out, 30);
+                        self.isolate(&[l], &ids);
+                        self.run_until(cl, out, 400, |cl| cl.nodes.iter().any(|s| s.id != l && s.raw.as_ref().map_or(false, |r| r.raft.state == raft::StateRole::Leader)));
+                        self.blocked.clear();
+                        // it learns that it was deposed, is cut off again and hears nothing for a few timeouts
+                        self.run_until(cl, out, 200, |cl| !Self::is_leader(cl, l));
+                        self.run_steps(cl, out, 20);
+                        self.isolate(&[l], &ids);
+                        self.run_steps(cl, out, 220);
+                        self.blocked.clear();
+                        self.run_steps(cl, out, 100);
+                        if let Some(l2) = Self::leader_of(cl) {
+                            if l2 != l {
+                                self.idle_then(cl, out, l2, Choice::Transfer { n: l2, to: l });
+                                self.run_steps(cl, out, 60);
+                                // bring it back as a voter
+                                self.idle_then(cl, out, l2, Choice::ProposeConf { n: l2, v1: false, tr: "A".into(), ch: vec![ChV { t: "V".into(), id: l }] });
+                                self.run_steps(cl, out, 120);
+                            }
+                        }
+                        continue;
+                    }
                     let t = *cand.choose(&mut self.rng).unwrap();
                     self.frozen = vec![(l, "Apply")];
                     self.idle_then(cl, out, l, Choice::ProposeConf { n: l, v1: false, tr: "A".into(), ch: vec![ChV { t: "L".into(), id: t }] });
@@ -2381,6 +2516,133 @@ impl Sched {
                     self.clear_script_controls();
                     self.proposals_left = keep;
                     self.run_steps(cl, out, 150);
+                }
+            }
+            "batch_retx" => {
+                // batch_append: appends wait in the leader's outbox while its application is busy; meanwhile the
+                // follower is reported unreachable (or rejects) and further proposals arrive
+                let _ = self.until_leader(cl, out, 400);
+                for _ in 0..6 {
+                    let l = match Self::leader_of(cl) {
+                        Some(l) => l,
+                        None => {
+                            self.run_steps(cl, out, 80);
+                            continue;
+                        }
+                    };
+                    let keep = std::mem::replace(&mut self.proposals_left, 0);
+                    self.run_steps(cl, out, 50);
+                    let f = self.others(&ids, l)[0];
+                    self.run_until(cl, out, 60, |cl| cl.nodes[cl.slot(l)].app.outstanding.is_none() && !cl.nodes[cl.slot(l)].raw.as_ref().unwrap().has_ready());
+                    self.frozen = vec![(l, "Ready")];
+                    for _ in 0..self.rng.gen_range(1..=3) {
+                        let p = self.payload();
+                        self.idle_then(cl, out, l, Choice::Propose { n: l, p });
+                    }
+                    if self.rng.gen_bool(0.7) {
+                        self.idle_then(cl, out, l, Choice::Unreachable { n: l, j: f });
+                    }
+                    for _ in 0..self.rng.gen_range(1..=2) {
+                        let p = self.payload();
+                        self.idle_then(cl, out, l, Choice::Propose { n: l, p });
+                    }
+                    self.run_steps(cl, out, 10);
+                    self.frozen.clear();
+                    self.proposals_left = keep;
+                    self.run_steps(cl, out, 90);
+                }
+            }
+            "stale_candidate" => {
+                // a deposed leader with a long tail of its old term learns of the new term but is cut off again before
+                // its log is repaired; it then stands for election with a log that is longer but older
+                let _ = self.until_leader(cl, out, 400);
+                for _ in 0..4 {
+                    let l = match Self::leader_of(cl) {
+                        Some(l) => l,
+                        None => {
+                            self.run_steps(cl, out, 80);
+                            continue;
+                        }
+                    };
+                    self.run_steps(cl, out, 40);
+                    self.isolate(&[l], &ids);
+                    let keep = std::mem::replace(&mut self.proposals_left, 0);
+                    for _ in 0..3 {
+                        let p = self.payload();
+                        self.idle_then(cl, out, l, Choice::Propose { n: l, p });
+                    }
+                    let t0 = cl.nodes[cl.slot(l)].raw.as_ref().map_or(0, |r| r.raft.term);
+                    let elected = self.run_until(cl, out, 400, |cl| {
+                        cl.nodes.iter().any(|s| s.id != l && s.raw.as_ref().map_or(false, |r| r.raft.state == raft::StateRole::Leader && r.raft.term > t0 && r.raft.raft_log.committed == r.raft.raft_log.last_index()))
+                    });
+                    if elected {
+                        // only heartbeats get through: it steps down, its log stays as it is
+                        for n in ids.clone() {
+                            if n != l {
+                                self.hold_from.push((n, l, "App".into()));
+                                self.hold_from.push((n, l, "Snap".into()));
+                            }
+                        }
+                        self.blocked.clear();
+                        self.run_until(cl, out, 200, |cl| !Self::is_leader(cl, l));
+                        self.isolate(&[l], &ids);
+                        let tn = cl.nodes.iter().filter_map(|s| s.raw.as_ref()).map(|r| r.raft.term).max().unwrap_or(0);
+                        self.run_until(cl, out, 400, |cl| {
+                            cl.nodes[cl.slot(l)].raw.as_ref().map_or(false, |r| r.raft.term > tn && r.raft.state != raft::StateRole::Follower)
+                        });
+                        self.blocked.clear();
+                        self.run_steps(cl, out, 60);
+                        self.hold_from.clear();
+                    }
+                    self.clear_script_controls();
+                    self.proposals_left = keep.max(2);
+                    self.run_steps(cl, out, 140);
+                }
+            }
+            "async_self_elect" => {
+                // a node whose own vote is a quorum restarts, has an asynchronously written Ready in flight, is elected,
+                // and the notification of the older Ready arrives before the Ready of the election is durable
+                let v = self.prof.voters[0];
+                let _ = self.until_leader(cl, out, 400);
+                for _ in 0..5 {
+                    self.proposals_left = self.proposals_left.max(2);
+                    self.run_steps(cl, out, 50);
+                    self.run_until(cl, out, 60, |cl| cl.is_up(v) && cl.nodes[cl.slot(v)].app.outstanding.is_none());
+                    if !cl.is_up(v) {
+                        continue;
+                    }
+                    let keep = std::mem::replace(&mut self.proposals_left, 0);
+                    self.do_choice(cl, out, Choice::Crash { n: v });
+                    let back = cl.nodes[cl.slot(v)].dur.trunc_index as i64;
+                    // the application re-applies from its last snapshot point: committed entries are handed out again
+                    self.do_choice(cl, out, Choice::Restart { n: v, applied: back });
+                    self.force_async = vec![v];
+                    self.frozen = vec![(v, "Notify"), (v, "Tick")];
+                    self.run_steps(cl, out, 14);
+                    self.run_until(cl, out, 30, |cl| cl.nodes[cl.slot(v)].app.outstanding.is_none());
+                    let in_flight = {
+                        let a = &cl.nodes[cl.slot(v)].app;
+                        a.last_taken > a.last_notified
+                    };
+                    // the election: its Ready is taken and written asynchronously, the disk is slow
+                    self.frozen = vec![(v, "Notify"), (v, "Fsync")];
+                    let lt = cl.nodes[cl.slot(v)].app.last_taken;
+                    self.run_until(cl, out, 200, |cl| {
+                        Self::is_leader(cl, v) && cl.nodes[cl.slot(v)].app.last_taken > lt && cl.nodes[cl.slot(v)].app.outstanding.is_none()
+                    });
+                    if in_flight && Self::is_leader(cl, v) {
+                        let (ln, ld) = {
+                            let a = &cl.nodes[cl.slot(v)].app;
+                            (a.last_notified, a.last_durable)
+                        };
+                        if ld > ln {
+                            self.do_choice(cl, out, Choice::Notify { n: v, number: ln + 1 });
+                        }
+                        self.run_steps(cl, out, 40);
+                    }
+                    self.clear_script_controls();
+                    self.proposals_left = keep;
+                    self.run_steps(cl, out, 60);
                 }
             }
             "conf_mix" => {
